@@ -52,7 +52,7 @@ SUITES = {
 # scripted regression histories: (file under /verif/scripts/defects, elem)
 DEFECT_SCRIPTS = [
     ("d1.ndjson", "plain"), ("d2.ndjson", "zst"), ("d2b.ndjson", "zst"), ("d3.ndjson", "plain"),
-    ("d5.ndjson", "heap"), ("d4a.ndjson", "plain"), ("d4b.ndjson", "plain"), ("d6.ndjson", "heap"),
+    ("d5.ndjson", "heap"), ("d4a.ndjson", "plain"), ("d4b.ndjson", "plain"), ("d6.ndjson", "heap"), ("d7.ndjson", "heap"),
 ]
 
 # ---------------------------------------------------------------------------------------------
@@ -84,7 +84,10 @@ PROPS = {
     "C04": dict(suites=["big_plain", "big_heap", "big_collide", "tomb_plain", "tomb_heap", "core_plain", "rel_plain", "limits_dbg", "limits_rel", "two_heap", "defects"], mc=["Small", "CountR8"]),
     "C05": dict(suites=["fault_heap", "fault_heap_rel", "tomb_plain", "tomb_heap", "core_heap", "rel_heap", "core_zst", "set_heap", "set_zst", "two_heap", "defects"], mc=["Small", "CountR8"]),
     "C06": dict(suites=["core_heap", "rel_heap", "two_heap", "set_heap", "set_two", "defects"], mc=["Small"]),
-    "C07": dict(suites=["fault_heap", "fault_heap_rel", "fault_plain", "fault_two", "fault_set", "fault_zst", "defects"], mc=[]),
+    # after an injected panic *every* monitor is part of "the map stays memory-safe and self-consistent,
+    # later operations behave normally": any failure in these suites counts for C07
+    "C07": dict(suites=["fault_heap", "fault_heap_rel", "fault_plain", "fault_two", "fault_set", "fault_zst", "defects"], mc=[],
+                any_monitor=True),
     "C08": dict(suites=["core_heap", "rel_heap", "core_plain", "set_heap", "core_zst"], mc=["Small"]),
     "C09": dict(suites=["core_heap", "rel_heap", "core_plain", "set_heap", "set_zst"], mc=["Small"]),
     "C10": dict(suites=["limits_dbg", "limits_rel", "core_plain", "rel_plain", "set_heap", "defects"], mc=["CountR8"]),
